@@ -97,6 +97,14 @@ func convRun(w *World, coll bool) {
 			// of it does, so the merging / dropping stages of lossy subscriptions see long runs of events
 			s.lag, s.lagEvery = []time.Duration{100 * time.Millisecond, 500 * time.Millisecond, time.Second}[t.Choose(3)], t.Flag(1, 2)
 		}
+		if !coll && i == 0 && s.cfg.Backpressure && t.Flag(1, 4) {
+			// a backpressured consumer that takes three seconds over every event: no single delivery comes near the five
+			// second bound of a Value write, but writers queue up behind each other for longer than that
+			s.lag, s.lagEvery = 3*time.Second, true
+		}
+		if i > 0 && cw.subs[0].lag >= 3*time.Second {
+			s.lag = 0 // (two slow consumers in a row would legitimately exceed the bound)
+		}
 		cw.subs = append(cw.subs, s)
 	}
 	for _, wr := range cw.writers {
